@@ -131,7 +131,9 @@ func (h *Session) findOrCreateHostWithLock(addr Addr) (host *Host, found bool) {
 	// if host exist in table but has different mac address,
 	// we need to remove the existing link host->mac and create a fresh link.
 	if host != nil {
+		host.MACEntry.Row.RLock() // host fields are written under the row lock
 		Logger.Msg("error mac address differ - duplicated IP?").Struct(addr).Struct(host).IP("iplookup", addr.IP).Write()
+		host.MACEntry.Row.RUnlock()
 		h.printHostTable()
 		h.deleteHost(addr.IP)
 		// TODO: previous host is offline then???
@@ -162,7 +164,9 @@ func (h *Session) findOrCreateHostWithLock(addr Addr) (host *Host, found bool) {
 func (h *Session) deleteHost(ip netip.Addr) {
 	if host := h.findIP(ip); host != nil {
 		if Logger.IsDebug() {
+			host.MACEntry.Row.RLock() // host fields are written under the row lock
 			Logger.Msg("delete host").IP("ip", ip).Struct(host).Write()
+			host.MACEntry.Row.RUnlock()
 		}
 		host.MACEntry.Row.Lock() // notify and makeOffline walk HostList under the row lock
 		host.MACEntry.unlink(host)
